@@ -916,6 +916,10 @@ impl BreadthFirstSearch {
 
         queue.push_back((root_goal as *mut Goal, 0));
 
+        // Rules are executed speculatively: record their changes so that a failed
+        // search leaves the caller's facts untouched.
+        facts.begin_undo_frame();
+
         while let Some((goal_ptr, depth)) = queue.pop_front() {
             // Safety: We maintain ownership properly
             let goal = unsafe { &mut *goal_ptr };
@@ -968,6 +972,12 @@ impl BreadthFirstSearch {
         }
 
         let success = root_goal.is_proven();
+
+        if success {
+            facts.commit_undo_frame();
+        } else {
+            facts.rollback_undo_frame();
+        }
 
         SearchResult {
             success,
